@@ -279,6 +279,12 @@ func buildWorker(dir string, instr, race bool) (string, error) {
 }
 
 func makeInstrumentedCopy(dir, copyDir string) error {
+	return makeInstrumentedCopyWith(dir, copyDir, nil)
+}
+
+// makeInstrumentedCopyWith additionally writes extra files (name -> content)
+// into the copy BEFORE it is instrumented (self-tests of the seams).
+func makeInstrumentedCopyWith(dir, copyDir string, extra map[string]string) error {
 	if err := os.MkdirAll(copyDir, 0o755); err != nil {
 		return err
 	}
@@ -286,8 +292,15 @@ func makeInstrumentedCopy(dir, copyDir string) error {
 	if out, err := cmd.CombinedOutput(); err != nil {
 		return fmt.Errorf("rsync: %v\n%s", err, out)
 	}
+	for name, content := range extra {
+		if err := os.WriteFile(filepath.Join(copyDir, name), []byte(content), 0o644); err != nil {
+			return err
+		}
+	}
 	instr := filepath.Join(verifDir, "bin", "instrument")
-	if _, err := os.Stat(instr); err != nil {
+	{
+		// always rebuilt (a cached build costs a fraction of a second): a
+		// stale instrumenter would silently leave seams out
 		b := exec.Command("go", "build", "-o", instr, "./cmd/instrument")
 		b.Dir = verifDir
 		b.Env = goEnv()
@@ -358,7 +371,7 @@ func fanOut(bin, dir, prop, tier string, seed uint64, total, nproc int, knownPat
 					cur = strings.TrimSpace(string(pb))
 				}
 				msg := stderr.String()
-				if n, aerr := strconv.Atoi(cur); aerr == nil && strings.Contains(msg, "fatal error:") && strings.Contains(msg, "github.com/veraison/go-cose.") {
+				if n, aerr := strconv.Atoi(cur); aerr == nil && (strings.Contains(msg, "fatal error:") && strings.Contains(msg, "github.com/veraison/go-cose.") || libraryGoroutinePanic(msg)) {
 					// stack exhaustion, concurrent map access, ...: not recoverable
 					// by the worker; attributed to the run in progress and
 					// confirmed in isolation below
@@ -575,7 +588,10 @@ func check(id, tier string) int {
 			fmt.Fprintf(os.Stderr, "verif: a worker died of a runtime fatal error in run %d but the run alone does not (no verdict)\n", bo.fatal[0])
 			os.Exit(2)
 		}
-		if id != "C06" {
+		if id != "C06" && !strings.Contains(v.Signature, "/panic-on-goroutine-started-by-go-cose/") {
+			// (a panic on a goroutine of the library's own making is judged
+			// where it is met: the call neither returned nor let the caller
+			// see the panic)
 			os.RemoveAll(dir)
 			fmt.Fprintf(os.Stderr, "verif: run %d ends the process with a runtime fatal error inside go-cose (%s); that is property C06's business, no verdict for %s\n", bo.fatal[0], v.Signature, id)
 			os.Exit(2)
@@ -748,6 +764,20 @@ func fatalViolation(bin, dir, id, tier string, seed uint64, run int, knownPath s
 		return nil
 	}
 	msg := stderr.String()
+	if libraryGoroutinePanic(msg) {
+		// a panic (the application's own code, a seam of the simulation)
+		// on a goroutine go-cose started: no caller can recover it
+		i := strings.Index(msg, "panic:")
+		fn := "?"
+		if m := regexp.MustCompile(`created by github\.com/veraison/go-cose\.([A-Za-z0-9_.()*]+)`).FindStringSubmatch(msg[i:]); m != nil {
+			fn = m[1]
+		}
+		if len(msg) > 1500 {
+			msg = msg[:1500]
+		}
+		return &replayFile{Property: id, Seed: seed, Run: run, Tier: tier, Signature: id + "/fatal/panic-on-goroutine-started-by-go-cose/" + fn,
+			Detail: fmt.Sprintf("run %d ends the whole process: code handed to go-cose by the caller panicked on a goroutine that go-cose started (%s), where no caller can recover it; replay with: cosesim run -prop %s -seed %d -start %d -count 1\n%s", run, fn, id, seed, run, msg)}
+	}
 	i := strings.Index(msg, "fatal error:")
 	if i < 0 || !strings.Contains(msg, "github.com/veraison/go-cose.") {
 		return nil
@@ -762,6 +792,13 @@ func fatalViolation(bin, dir, id, tier string, seed uint64, run int, knownPath s
 	}
 	return &replayFile{Property: id, Seed: seed, Run: run, Tier: tier, Signature: id + "/fatal/" + strings.ReplaceAll(kind, " ", "-") + "/" + fn,
 		Detail: fmt.Sprintf("run %d ends the whole process with the unrecoverable runtime error %q inside go-cose (%s) when executed alone; replay with: cosesim run -prop %s -seed %d -start %d -count 1\n%s", run, kind, fn, id, seed, run, msg)}
+}
+
+// libraryGoroutinePanic: the process died of a panic on a goroutine created
+// by go-cose code.
+func libraryGoroutinePanic(msg string) bool {
+	i := strings.Index(msg, "panic:")
+	return i >= 0 && strings.Contains(msg[i:], "created by github.com/veraison/go-cose.")
 }
 
 func hangViolation(bin, dir, id, tier string, seed uint64, run int, knownPath string) *replayFile {
